@@ -19,6 +19,8 @@
 (*   [k:"settle"]                  quiescence barrier: everything before   *)
 (*                                 happened-before everything after        *)
 (*   [k:"stop"]                    the runtime's stop trigger is fired     *)
+(*   [k:"rclose"]                  the socket to the remote goes away      *)
+(*   [k:"reset", kind, strategy]   (trace only) a new case                 *)
 (*   [k:"finish", running]         end of the script: the remote has read  *)
 (*                                 and answered every frame, all is idle   *)
 (* n = [t:"linked"|"synced"|"unlinked"|"eof"] or [t:"event", op]           *)
@@ -42,6 +44,15 @@
 (*     synced if it asked;                                                 *)
 (*  S6 unlinked exactly when the link closes (lane sent unlinked / stop),  *)
 (*     last, and to every consumer that had been linked;                   *)
+(*  S7 a MALFORMED frame (an event body that is no map message, map        *)
+(*     downlink with interpretation; rsend marked bad): with the IGNORE    *)
+(*     strategy every session is exactly the session without that frame    *)
+(*     (it is not part of N); with the ABORT strategy the link closes at   *)
+(*     that frame: S6 applies (everything before it delivered, unlinked,   *)
+(*     end of stream, nothing sent after it is delivered), and a consumer  *)
+(*     attaching afterwards is refused (attachfail);                       *)
+(*  S8 stop request / socket gone (stop, rclose): S6 without the           *)
+(*     completeness clause;                                                *)
 (*  C1 every command on the socket was written by a consumer, at most once;*)
 (*  C2 commands of one consumer that conflict (value: all; map: same key,  *)
 (*     or one is a clear) arrive in the order written;                     *)
@@ -50,6 +61,9 @@
 (*     socket affecting it is not OLDER than any other written command     *)
 (*     affecting it (older = written earlier by the same consumer, or      *)
 (*     already read by the lane when the other was written).               *)
+(*  C4 a consumer that writes something that is no command (badcmd) only   *)
+(*     loses its own later commands; commands with a key that is not UTF-8 *)
+(*     (badkey) are owed to nobody.                                        *)
 (* P does NOT constrain: how many sync frames are sent, batching, order    *)
 (* between consumers, order between commands of different consumers that   *)
 (* were written concurrently, what a consumer reads before synced (beyond  *)
@@ -99,7 +113,6 @@ PInit(kind, enabled, strategy) ==
     [kind    |-> kind,          \* "value" | "map" | "mapevent" (map downlink without interpretation)
      strat   |-> strategy,      \* what the runtime is told to do with a malformed frame: "abort" | "ignore"
      nbad    |-> 0,             \* malformed frames the lane's side sent (map downlink)
-     badpre  |-> FALSE,         \* ... one of them before the lane sent linked
      enabled |-> enabled,       \* ids of OPEN known findings (deviation actions allowed)
      st      |-> "ok",          \* "ok" | "fail"
      why     |-> "",            \* first failure
@@ -107,7 +120,7 @@ PInit(kind, enabled, strategy) ==
      ep      |-> 0,             \* number of settle barriers seen
      N       |-> <<>>,          \* notifications the lane sent: [n, ep]
      views   |-> <<>>,          \* views[i] = lane state after N[1..i]
-     closed  |-> "no",          \* "no" | "unlinked" | "stop" | "abort" (malformed frame, strategy abort)
+     closed  |-> "no",          \* "no" | "unlinked" | "stop" | "rclose" | "abort" (malformed frame, strategy abort)
      cpos    |-> 0,             \* Len(N) when the link closed
      cons    |-> <<>>,          \* sequence of consumer records (index = order of attach)
      cmds    |-> <<>>,          \* commands written: [c, op, gl = commands the lane had read by then]
@@ -135,8 +148,9 @@ SyncedSent(p) == \E i \in 1..Len(p.N) : p.N[i].n.t = "synced"
 Late(p, x) == \E i \in 1..Len(p.N) : p.N[i].n.t = "linked" /\ p.N[i].ep <= x.aep
 
 IsMap(p) == p.kind \in {"map", "mapevent"}
-\* nothing the lane sends after the link has closed can be delivered
-Limit(p) == IF p.closed = "no" THEN Len(p.N) ELSE p.cpos
+\* nothing the lane's side sends after the frame that closes the link can be delivered (a stop
+\* request, in contrast, races with what is already on its way)
+Limit(p) == IF p.closed \in {"unlinked", "abort"} THEN p.cpos ELSE Len(p.N)
 
 Live(x) == x.ph \in {"att", "linked", "synced"}
 Registered(x) == (x.ph = "synced") \/ (x.ph = "linked" /\ ~x.sync /\ x.mode = "norm")
@@ -150,7 +164,7 @@ OnAttach(p, e) ==
         x == [c |-> e.c, sync |-> e.sync, ph |-> "att", pos |-> {}, view |-> {}, aep |-> p.ep,
               mids |-> mids, mode |-> "norm", lpos |-> 0, nev |-> 0,
               sy |-> FALSE,         \* has read synced
-              nempty |-> 0,         \* events without a body it has read (KF F10d)
+              cbroken |-> FALSE,    \* it wrote something that is no command: its command stream is cut
               dpos |-> {}]          \* candidate positions if the F10c deviation was taken at synced
     IN IF CIdx(p, e.c) # 0 THEN Fail(p, "harness: consumer attached twice")
        ELSE [p EXCEPT !.cons = Append(@, x)]
@@ -162,8 +176,10 @@ OnAttachFail(p, e) ==
 \* cf = the consumer had already written something that is no command at all (op "badcmd"): the
 \* runtime stops reading its commands there (Failed -> terminate), its notifications go on
 OnCSend(p, e) ==
-    LET cf == \E j \in 1..Len(p.cmds) : p.cmds[j].c = e.c /\ p.cmds[j].op.o = "badcmd" IN
-    [p EXCEPT !.cmds = Append(@, [c |-> e.c, op |-> e.op, gl |-> Len(p.got), cf |-> cf])]
+    LET cf == \E j \in 1..Len(p.cmds) : p.cmds[j].c = e.c /\ p.cmds[j].op.o = "badcmd"
+        i == CIdx(p, e.c)
+        q == [p EXCEPT !.cmds = Append(@, [c |-> e.c, op |-> e.op, gl |-> Len(p.got), cf |-> cf])] IN
+    IF e.op.o = "badcmd" /\ i # 0 THEN [q EXCEPT !.cons[i].cbroken = TRUE] ELSE q
 
 OnCDrop(p, e) ==
     LET i == CIdx(p, e.c) IN
@@ -173,7 +189,7 @@ OnCDrop(p, e) ==
 \* ignore: the sessions are exactly the sessions without that frame - it is not part of N.
 \* abort : the link closes there, as if the lane had unlinked.
 OnBadFrame(p) ==
-    IF p.strat = "ignore" THEN [p EXCEPT !.nbad = @ + 1, !.badpre = @ \/ ~LinkedSent(p)]
+    IF p.strat = "ignore" THEN [p EXCEPT !.nbad = @ + 1]
     ELSE IF p.closed = "no" THEN [p EXCEPT !.nbad = @ + 1, !.closed = "abort", !.cpos = Len(p.N)]
     ELSE [p EXCEPT !.nbad = @ + 1]
 
@@ -187,6 +203,8 @@ OnRSend(p, e) ==
          ELSE q
 
 OnStop(p) == IF p.closed = "no" THEN [p EXCEPT !.closed = "stop", !.cpos = Len(p.N)] ELSE p
+\* the connection to the remote goes away (socket dropped / bytes that are no envelope)
+OnRClose(p) == IF p.closed = "no" THEN [p EXCEPT !.closed = "rclose", !.cpos = Len(p.N)] ELSE p
 
 OnSettle(p) == [p EXCEPT !.ep = @ + 1]
 
@@ -224,12 +242,8 @@ OnEvent(p, i, op) ==
                                !.cons[i].nev = @ + 1]
     IN
     IF x.ph \notin {"linked", "synced"} THEN Fail(p, "S1: event before linked / after unlinked")
-    \* KF F10d: with the IGNORE strategy a malformed frame is not skipped: after the failed
-    \* interpretation the (cleared, empty) buffer is still forwarded as an event
-    ELSE IF op.o = "empty" THEN
-        IF "F10d" \in p.enabled /\ p.kind = "map" /\ p.strat = "ignore" /\ x.nempty < p.nbad
-          THEN Deviate([p EXCEPT !.cons[i].nempty = @ + 1], "F10d")
-          ELSE Fail(p, "S2: event without a body (not a map message) delivered")
+    \* (an ignored malformed frame must be skipped, not forwarded as the buffer that was cleared for it)
+    ELSE IF op.o = "empty" THEN Fail(p, "S2: event without a body (not a map message) delivered")
     ELSE IF Registered(x) THEN
         IF strict # {} THEN upd(strict, dstrict)
         \* KF F10c (see OnSynced): the cut chosen at synced does not work out, the deviation does
@@ -305,7 +319,9 @@ SessionDebt(p, x) ==
         IF x.ph \in {"linked", "synced"} THEN "S6: the link closed but a linked consumer was not told unlinked" ELSE ""
     ELSE IF x.ph = "att" THEN
         IF LinkedSent(p) THEN "S5: never linked" ELSE ""
-    ELSE IF x.sync /\ x.ph # "synced" THEN "S5: asked for SYNC but never synced"
+    \* (a consumer that broke its own command stream is no longer counted by the write task: if it is
+    \*  the only one left, a sync still owed to it is not requested - not demanded here)
+    ELSE IF x.sync /\ x.ph # "synced" /\ ~x.cbroken THEN "S5: asked for SYNC but never synced"
     ELSE IF (Registered(x) \/ x.mode = "kfb") /\ ~Complete(p, x, Len(p.N)) THEN "S3: events of the lane never delivered"
     ELSE ""
 
@@ -314,11 +330,7 @@ Undelivered == "S3: events of the lane never delivered"
 
 \* the deviation (if any) that explains consumer x's unmet obligation
 Excuse(p, x) ==
-    \* KF F10d (see OnEvent): the not-skipped malformed frame arrived while consumers were waiting
-    \* for linked; the read task then believes it has no consumers and never forwards linked
-    IF SessionDebt(p, x) = "S5: never linked"
-      THEN IF "F10d" \in p.enabled /\ p.kind = "map" /\ p.strat = "ignore" /\ p.badpre THEN "F10d" ELSE ""
-    ELSE IF SessionDebt(p, x) # Undelivered THEN ""
+    IF SessionDebt(p, x) # Undelivered THEN ""
     ELSE IF x.ph = "synced" /\ CompleteFrom(p, x.dpos, Len(p.N)) THEN "F10c"
     ELSE IF IsF10b(p, x) THEN "F10b"
     ELSE ""
@@ -411,6 +423,7 @@ PStep(p, e) ==
     ELSE IF e.k = "rrecv" THEN OnRRecv(p, e)
     ELSE IF e.k = "settle" THEN OnSettle(p)
     ELSE IF e.k = "stop" THEN OnStop(p)
+    ELSE IF e.k = "rclose" THEN OnRClose(p)
     ELSE IF e.k = "finish" THEN OnFinish(p, e)
     ELSE Fail(p, "unknown event")
 
